@@ -33,6 +33,7 @@ const (
 	yUndefaulted            // spec as admitted by the CRD, not defaulted (C15)
 	yHealthDims             // pods vary in health and revision (else healthy, update revision)
 	yOrphanRevs             // the set's own revisions may be orphans (adoption path)
+	yStatusConflict         // the status write may hit a conflict and be retried
 )
 
 // sync monitor bits
@@ -302,6 +303,9 @@ func (sw *vSyncWorld) trace(err error, panicked string) {
 func VH_Sync(a []int) {
 	N, R, K, opts, mon := a[0], a[1], a[2], a[3], a[4]
 	sw := vBuildSync(N, R, K, opts)
+	if opts&yStatusConflict != 0 {
+		sw.w.faultBudget, sw.w.faultKinds, sw.w.faultOnly = 1, 2, "set.updateStatus"
+	}
 	ssc := vNewController(sw.w)
 	if mon&nC10 != 0 {
 		// objects handed out by the informer caches must not be modified
